@@ -66,8 +66,11 @@ static int make_name(long id, uint8_t *name, size_t *namelen, size_t max) {
 	char cn[32];
 	*namelen = 0;
 	if (id == 0) return 1;
-	snprintf(cn, sizeof cn, "N%ld", id);
-	return x509_name_set(name, namelen, max, "CN", NULL, NULL, "VERIF", NULL, cn);
+	/* id = 100 + n: the Name of n followed by one more RDN, so that n's encoding is a byte-prefix of it */
+	snprintf(cn, sizeof cn, "N%ld", id > 100 ? id - 100 : id);
+	if (x509_name_set(name, namelen, max, "CN", NULL, NULL, "VERIF", NULL, cn) != 1) return -1;
+	if (id > 100 && x509_name_add_organizational_unit_name(name, namelen, max, ASN1_TAG_PrintableString, (const uint8_t *)"X", 1) != 1) return -1;
+	return 1;
 }
 
 /* raw Extension with an arbitrary OID */
@@ -149,6 +152,13 @@ static int add_one_ext(uint8_t *exts, size_t *extslen, size_t max, char *spec) {
 	}
 	if (!strcmp(kind, "unk")) { static const uint32_t n[] = { 1, 2, 3, 4, 5 };
 		return add_raw_ext(exts, extslen, max, n, 5, critical, generic, sizeof generic, 0); }
+	/* OIDs that extend / are a prefix of a recognised extension OID must be treated as unrecognised */
+	if (!strcmp(kind, "bcx")) { static const uint32_t n[] = { 2, 5, 29, 19, 1 };
+		return add_raw_ext(exts, extslen, max, n, 5, critical, generic, sizeof generic, 0); }
+	if (!strcmp(kind, "kux")) { static const uint32_t n[] = { 2, 5, 29, 15, 0 };
+		return add_raw_ext(exts, extslen, max, n, 5, critical, generic, sizeof generic, 0); }
+	if (!strcmp(kind, "cepre")) { static const uint32_t n[] = { 2, 5, 29 };
+		return add_raw_ext(exts, extslen, max, n, 3, critical, generic, sizeof generic, 0); }
 	if (!strcmp(kind, "bad")) { static const uint32_t n[] = { 2, 5, 29, 19 }; static const uint8_t one[] = { 1 };
 		return add_raw_ext(exts, extslen, max, n, 4, critical, one, 1, 1); }
 	return -1;
